@@ -39,6 +39,30 @@ property statement:
   Class-level metadata operations are part of the histories (they create the aliasing
   opportunities) but the statement says nothing about who sees them, so nothing is demanded after
   them beyond the value rules.
+
+* layer D (deep hierarchies): layer V's parameter ``p`` declared on the root of a CHAIN of four classes
+  K0 <- K1 <- K2 <- K3 (instantiate x constant as in layer V), histories over: create an instance of class k
+  (``N<k>``; ``N<k>e`` = with the keyword ``p=<the very object that is the class default>``), class-level set
+  on class k (``C<k>``: every parameter reachable there), in-place mutation through class k (``M<k>``), reading
+  the namespace of class k (``W<k>``: builds the parameter cache of THAT class only),
+  ``K.param.add_parameter('q', <a new parameter of the same kind>)`` (``Q<k>``),
+  ``K.param.add_parameter('p', ...)`` (``P<k>``), and on an instance: in-place mutation, read of
+  ``obj.param[..]``, assignment of a fresh list, and ``IE<i>`` = assignment of THE VERY OBJECT that is the
+  class default at that moment (``obj.p = type(obj).p``).  The same ownership model, per parameter name: a
+  class follows the nearest ancestor that declares / was assigned the name; ``q`` is claimed only for
+  instances created after the last ``add_parameter('q')`` (the statement says nothing about instances that
+  existed before a parameter was added).  Besides all short histories the *guided* family
+  [build the cache of a class >= 2 levels down] ; [add_parameter / class-level set anywhere] ; [create] ;
+  [class-level set anywhere] is enumerated: the deep class has its cache while the classes in between never
+  built one.
+
+* layer E (explicitly assigned default): product, not histories -- parameter kind (None / small int / float /
+  interned string / bool / tuple / Selector value / shared list / arbitrary object) x how the instance assigns
+  a value that IS (or equals) the class default at that moment (``obj.p = Cls.p``, an equal literal,
+  constructor keyword, ``param.update``) x class of the instance (A, B inheriting, B redeclaring) x when
+  ``obj.param['p']`` is read x how the class default changes afterwards (``A.p = v``, ``B.p = v``,
+  ``A.param['p'].default = v``).  Oracle: the instance that assigned keeps the object it assigned, a control
+  instance of the same class that never assigned shows its class's value.
 """
 import itertools
 import logging
@@ -47,6 +71,14 @@ import warnings
 import zlib
 
 from bounded._api import Bounded, REPLAY_HEADER
+
+
+def _header(**kw):
+    """replay header; PYVC_REPO (a scratch copy of the library under test) overrides /repo"""
+    return REPLAY_HEADER.format(**kw).replace(
+        "sys.path.insert(0, '/repo')",
+        "import os\nsys.path.insert(0, os.environ.get('PYVC_REPO', '/repo'))      # (PYVC_REPO: a scratch copy of the library under test)")
+
 
 _param = None
 
@@ -561,9 +593,350 @@ def m_run(cfg, ops, hits=None):
 
 
 # ---------------------------------------------------------------------------------------------
+# layer D: chains of four classes, add_parameter, caches of deep classes
+# ---------------------------------------------------------------------------------------------
+DEPTH = 4
+D_CONFIGS = [dict(inst=i, const=c) for i in ('False', 'True', 'ListDefault') for c in (False, True)]
+
+
+def _d_decl(cfg, value_src):
+    kw = []
+    if cfg['inst'] == 'ListDefault':
+        t = 'List'
+    else:
+        t = 'Parameter'
+        kw.append('instantiate=%s' % cfg['inst'])
+    if cfg['const']:
+        kw.append('constant=True')
+    return 'param.%s(default=%s%s)' % (t, value_src, ''.join(', ' + k for k in kw))
+
+
+def d_class_source(cfg):
+    src = 'class K0(param.Parameterized):\n    p = %s\n' % _d_decl(cfg, '[0]')
+    for k in range(1, DEPTH):
+        src += 'class K%d(K%d):\n    pass\n' % (k, k - 1)
+    return src
+
+
+def d_alphabet(cfg):
+    ops = ['N%d' % k for k in range(DEPTH)] + ['N1e', 'N%de' % (DEPTH - 1)]
+    ops += ['C%d' % k for k in range(DEPTH)] + ['M%d' % k for k in range(DEPTH)] + ['W%d' % k for k in range(DEPTH)]
+    ops += ['Q%d' % k for k in range(DEPTH - 1)] + ['P%d' % k for k in range(DEPTH - 1)]
+    for i in range(MAXI):
+        ops += ['IM%d' % i, 'IR%d' % i]
+        if not cfg['const']:
+            ops += ['IS%d' % i, 'IE%d' % i]
+    return ops
+
+
+class DModel:
+    """The ownership model of layer V, per parameter name, over a chain of DEPTH classes."""
+
+    def __init__(self, cfg):
+        self.instantiate = cfg['inst'] != 'False'
+        self.const = cfg['const']
+        self.cells = {0: [0]}
+        self.next = 1
+        self.cls = {'p': [0] + [None] * (DEPTH - 1), 'q': [None] * DEPTH}
+        self.insts = []      # [class index, {name: own cell or None}, names claimed for this instance]
+
+    def new(self, content):
+        c = self.next
+        self.next += 1
+        self.cells[c] = list(content)
+        return c
+
+    def cls_cell(self, name, k):
+        for j in range(k, -1, -1):
+            if self.cls[name][j] is not None:
+                return self.cls[name][j]
+        return None                       # not reachable on class k
+
+    def reach(self, k):
+        return [n for n in ('p', 'q') if self.cls_cell(n, k) is not None]
+
+    def live(self, i):
+        return self.insts[i][2]
+
+    def inst_cell(self, i, name):
+        k, own, _ = self.insts[i]
+        return own[name] if own[name] is not None else self.cls_cell(name, k)
+
+    def apply(self, op, step):
+        kind, k = op[0], int(op[1]) if op[0] != 'I' else int(op[-1])
+        if kind == 'N':
+            own = {}
+            names = self.reach(k)
+            for n in names:
+                if self.instantiate:
+                    own[n] = self.new(self.cells[self.cls_cell(n, k)])
+                elif self.const:
+                    own[n] = self.cls_cell(n, k)
+                else:
+                    own[n] = None
+            if op.endswith('e'):              # keyword: the very object that is the class default
+                own['p'] = self.cls_cell('p', k)
+            self.insts.append([k, own, list(names)])
+        elif kind == 'C':
+            for n in self.reach(k):
+                self.cls[n][k] = self.new([(100 if n == 'p' else 200) + step])
+        elif kind == 'M':
+            for n in self.reach(k):
+                self.cells[self.cls_cell(n, k)].append((100 if n == 'p' else 200) + step)
+        elif kind == 'Q':
+            self.cls['q'][k] = self.new([300 + step])
+            for ic in self.insts:             # instances that existed before the parameter was added: no claim
+                if 'q' in ic[2]:
+                    ic[2].remove('q')
+        elif kind == 'P':
+            self.cls['p'][k] = self.new([400 + step])
+        elif kind == 'I':
+            sub = op[:2]
+            for n in self.live(k):
+                if sub == 'IM':
+                    self.cells[self.inst_cell(k, n)].append((100 if n == 'p' else 200) + step)
+                elif sub == 'IS':
+                    self.insts[k][1][n] = self.new([(100 if n == 'p' else 200) + step])
+                elif sub == 'IE':
+                    self.insts[k][1][n] = self.cls_cell(n, self.insts[k][0])
+
+    def entities(self):
+        out = []
+        for n in ('p', 'q'):
+            for k in range(DEPTH):
+                c = self.cls_cell(n, k)
+                if c is not None:
+                    out.append(('K%d.%s' % (k, n), c, n))
+            for i in range(len(self.insts)):
+                if n in self.live(i):
+                    out.append(('insts[%d].%s' % (i, n), self.inst_cell(i, n), n))
+        return out
+
+
+def d_op_source(ops, j, cfg, model):
+    """Statement for operation j of ``ops``; ``model`` is the model state BEFORE the operation (it says
+    which names are reachable on a class / claimed for an instance)."""
+    op = ops[j]
+    kind = op[0]
+    val = lambda n: (100 if n == 'p' else 200) + j
+    if kind == 'N':
+        k = int(op[1])
+        return 'insts.append(K%d(%s))' % (k, 'p=K%d.p' % k if op.endswith('e') else '')
+    if kind == 'I':
+        i = int(op[-1])
+        sub = op[:2]
+        names = model.live(i)
+        return '; '.join({'IM': 'insts[%d].%s.append(%d)' % (i, n, val(n)),
+                          'IR': "insts[%d].param[%r]" % (i, n),
+                          'IS': 'insts[%d].%s = [%d]' % (i, n, val(n)),
+                          'IE': 'insts[%d].%s = type(insts[%d]).%s' % (i, n, i, n)}[sub] for n in names) or 'pass'
+    k = int(op[1])
+    names = model.reach(k)
+    if kind == 'C':
+        return '; '.join('K%d.%s = [%d]' % (k, n, val(n)) for n in names)
+    if kind == 'M':
+        return '; '.join('K%d.%s.append(%d)' % (k, n, val(n)) for n in names)
+    if kind == 'W':
+        return 'list(K%d.param)' % k
+    if kind == 'Q':
+        return "K%d.param.add_parameter('q', %s)" % (k, _d_decl(cfg, '[%d]' % (300 + j)))
+    if kind == 'P':
+        return "K%d.param.add_parameter('p', %s)" % (k, _d_decl(cfg, '[%d]' % (400 + j)))
+    raise AssertionError(op)
+
+
+def _d_ekind(op, name, ninst):
+    if op[0] == 'N':
+        actor = 'insts[%d]' % (ninst - 1)
+    elif op[0] == 'I':
+        actor = 'insts[%s]' % op[-1]
+    else:
+        actor = 'K' + op[1]
+    ent = name.rsplit('.', 1)[0]
+    if ent == actor:
+        return 'actor'
+    if ent[0] == 'K':
+        rel = int(ent[1]) - int(actor[1]) if actor[0] == 'K' else None
+        return 'class' if rel is None else ('subclass+%d' % rel if rel > 0 else 'superclass')
+    return 'instance' if op[0] not in 'NI' else 'other-instance'
+
+
+def d_run(cfg, ops, hits=None, sources=None):
+    """Run one history; -> first (step, clause, detail, check) or None."""
+    env = {'param': _P()}
+    exec(_compiled(d_class_source(cfg)), env)
+    env['insts'] = []
+    model = DModel(cfg)
+    for j, op in enumerate(ops):
+        src = d_op_source(ops, j, cfg, model)
+        if sources is not None:
+            sources.append(src)
+        try:
+            exec(_compiled(src), env)
+        except Exception as e:
+            return j, 'C12/D/operation-raised', '%s (%s) raised %r' % (op, src, e), None
+        model.apply(op, j)
+        ents = model.entities()
+        vals = [eval(name, env) for name, _, _ in ents]
+        if hits is not None:
+            hits[0] += len(ents)
+        okind = op.rstrip('0123456789') if op[0] == 'I' else op[0] + ('e' if op.endswith('e') else '')
+        for (name, cell, _), real in zip(ents, vals):
+            want = model.cells[cell]
+            if type(real) is not list or real != want:
+                return (j, 'C12/D/value/%s/%s' % (okind, _d_ekind(op, name, len(model.insts))),
+                        'after %s: %s is %r, ownership model gives %r' % (op, name, real, want), (name, list(want)))
+        for a in range(len(ents)):
+            for b in range(a + 1, len(ents)):
+                if ents[a][2] != ents[b][2]:
+                    continue
+                if hits is not None:
+                    hits[1] += 1
+                same = vals[a] is vals[b]
+                want = ents[a][1] == ents[b][1]
+                if same != want:
+                    return (j, 'C12/D/identity/%s/%s' % (okind, 'unexpected-alias' if same else 'unexpected-copy'),
+                            'after %s: (%s is %s) is %r, ownership model gives %r'
+                            % (op, ents[a][0], ents[b][0], same, want),
+                            ('%s is %s' % (ents[a][0], ents[b][0]), want))
+    return None
+
+
+def d_guided(cfg, length):
+    """[build the cache of a class >= 2 levels down] ; [structural change anywhere] ; [create] (; [class-level
+    set anywhere] (; [anything]))"""
+    alpha = d_alphabet(cfg)
+    warm = [o for o in alpha if o[0] in 'WN' and int(o[1]) >= 2]
+    struct = [o for o in alpha if o[0] in 'QPC']
+    create = [o for o in alpha if o[0] == 'N']
+    csets = [o for o in alpha if o[0] == 'C']
+    for w in warm:
+        for x in struct:
+            for n in create:
+                if length == 3:
+                    yield (w, x, n)
+                    continue
+                for y in csets:
+                    if length == 4:
+                        yield (w, x, n, y)
+                        continue
+                    for z in alpha:
+                        h = (w, x, n, y, z)
+                        if valid_history(h):
+                            yield h
+
+
+# ---------------------------------------------------------------------------------------------
+# layer E: the instance assigns the very object that is the class default
+# ---------------------------------------------------------------------------------------------
+E_KINDS = (          # name, declaration, literal equal to the default, new class value
+    ('Parameter-None', 'param.Parameter(default=None)', 'None', "'n1'"),
+    ('Integer', 'param.Integer(default=3)', '3', '7'),
+    ('Integer-None', 'param.Integer(default=None, allow_None=True)', 'None', '7'),
+    ('Number', 'param.Number(default=0.5)', '0.5', '1.5'),
+    ('String', "param.String(default='a')", "'a'", "'b'"),
+    ('String-empty', "param.String(default='')", "''", "'b'"),
+    ('Boolean', 'param.Boolean(default=False)', 'False', 'True'),
+    ('Tuple', 'param.Tuple(default=(1, 2))', '(1, 2)', '(3, 4)'),
+    ('Selector', "param.Selector(objects=['a', 'b', 'c'], default='a')", "'a'", "'b'"),
+    ('List-shared', 'param.List(default=[0], instantiate=False)', '[0]', '[1]'),
+    ('Dict-shared', "param.Dict(default={'k': 0}, instantiate=False)", "{'k': 0}", "{'k': 1}"),
+    ('Parameter-object', 'param.Parameter(default=OBJ)', None, 'Thing()'),
+    ('ClassSelector', 'param.ClassSelector(class_=Thing, default=OBJ, instantiate=False)', None, 'Thing()'),
+)
+E_ROUTES = ('set-default-object', 'set-equal-literal', 'kw-default-object', 'kw-equal-literal', 'update-default-object')
+E_SUBS = ('A', 'B-inherit', 'B-redeclare')
+E_READS = ('none', 'before-assign', 'after-assign')
+E_CHANGES = ('A.p=v', 'B.p=v', "A.param['p'].default=v", 'B.p=v;A.p=v')
+
+
+def e_cases():
+    for kind in E_KINDS:
+        for route in E_ROUTES:
+            if kind[2] is None and route.endswith('literal'):
+                continue
+            for sub in E_SUBS:
+                for read in E_READS:
+                    if read == 'before-assign' and route.startswith('kw'):
+                        continue
+                    for change in E_CHANGES:
+                        if sub == 'A' and 'B.p' in change:
+                            continue
+                        yield dict(kind=kind[0], route=route, sub=sub, read=read, change=change)
+
+
+def e_source(case):
+    kind = [k for k in E_KINDS if k[0] == case['kind']][0]
+    _, decl, lit, newv = kind
+    K = 'A' if case['sub'] == 'A' else 'B'
+    src = ['class Thing:', '    pass', 'OBJ = Thing()',
+           'class A(param.Parameterized):', '    p = %s' % decl]
+    if case['sub'] == 'B-inherit':
+        src += ['class B(A):', '    pass']
+    elif case['sub'] == 'B-redeclare':
+        src += ['class B(A):', '    p = %s' % decl]
+    value = '%s.p' % K if case['route'].endswith('object') else lit
+    src += ['control = %s()            # never assigns p' % K]
+    if case['route'].startswith('kw'):
+        src += ['value = %s' % value, 'o = %s(p=value)' % K]
+        if case['read'] == 'after-assign':
+            src += ["o.param['p']"]
+    else:
+        src += ['o = %s()' % K]
+        if case['read'] == 'before-assign':
+            src += ["o.param['p']"]
+        src += ['value = %s' % value,
+                'o.p = value' if case['route'].startswith('set') else 'o.param.update(p=value)']
+        if case['read'] == 'after-assign':
+            src += ["o.param['p']"]
+    src += ['before = %s.p' % K]
+    for ch in case['change'].split(';'):
+        src += [ch.replace('=v', ' = ' + newv)]
+    src += ['changed = %s.p is not before' % K,
+            'kept = o.p is value                                   # the instance assigned: keeps its own value',
+            'follows = control.p is %s.p                           # never assigned: shows the value of its class' % K]
+    return '\n'.join(src) + '\n'
+
+
+def e_text(case):
+    return 'layer=E kind=%s route=%s sub=%s read=%s change=%s' % (
+        case['kind'], case['route'], case['sub'], case['read'], case['change'].replace(' ', ''))
+
+
+def e_run(case):
+    """-> (None | (clause, detail), class value changed?)"""
+    env = {'param': _P()}
+    try:
+        exec(_compiled(e_source(case)), env)
+    except Exception as e:
+        return ('C12/E/operation-raised', 'raised %r' % (e,)), False
+    if not env['kept']:
+        return ('C12/E/assigned-default/own-value-lost',
+                'the instance assigned %r (the class default at that moment); after the class default changed '
+                'it shows %r' % (env['value'], env['o'].p)), env['changed']
+    if not env['follows']:
+        return ('C12/E/assigned-default/control-does-not-follow-class',
+                'the control instance shows %r, its class %r' % (env['control'].p, env['before'])), env['changed']
+    return None, env['changed']
+
+
+def e_replay(case, clause, witness):
+    head = _header(prop='C12', name='replay_c12.py', clause=clause, witness=witness)
+    return '\n'.join([head, 'import warnings, logging', 'import param', "warnings.simplefilter('ignore')",
+                      "logging.getLogger('param').setLevel(logging.CRITICAL)", e_source(case),
+                      'if not kept:',
+                      '    print("REPRODUCED: the instance assigned %r, now shows %r (its class: %r)" % (value, o.p, type(o).p)); sys.exit(1)',
+                      'if not follows:',
+                      '    print("REPRODUCED: the control instance shows %r, its class %r" % (control.p, type(control).p)); sys.exit(1)',
+                      "print('NOT-REPRODUCED')"]) + '\n'
+
+
+# ---------------------------------------------------------------------------------------------
 # shrinking, witnesses, replay
 # ---------------------------------------------------------------------------------------------
 def run_any(layer, cfg, ops, hits=None):
+    if layer == 'D':
+        return d_run(cfg, ops, hits)
     return (v_run if layer in 'VR' else m_run)(cfg, ops, hits)
 
 
@@ -617,20 +990,26 @@ def witness_text(layer, cfg, ops):
 def replay_script(layer, cfg, ops, clause, witness):
     r = run_any(layer, cfg, ops)
     k, _cl, detail, check = r
-    head = REPLAY_HEADER.format(prop='C12', name='replay_c12.py', clause=clause, witness=witness)
+    head = _header(prop='C12', name='replay_c12.py', clause=clause, witness=witness)
     lines = [head, 'import warnings, logging', 'import param', "warnings.simplefilter('ignore')",
              "logging.getLogger('param').setLevel(logging.CRITICAL)"]
-    if layer in 'VR':
-        lines.append(v_class_source(cfg))
+    if layer in 'VRD':
+        if layer == 'D':
+            srcs = []
+            d_run(cfg, ops, sources=srcs)
+            lines.append(d_class_source(cfg))
+        else:
+            srcs = [op_source(op, j) for j, op in enumerate(ops)]
+            lines.append(v_class_source(cfg))
         lines.append('insts = []')
         if check is None:       # the operation itself raised
             for j, op in enumerate(ops[:-1]):
-                lines.append(op_source(op, j) + '        # step %d: %s' % (j, op))
-            lines += ['try:', '    ' + op_source(ops[-1], len(ops) - 1), 'except Exception as e:',
+                lines.append(srcs[j] + '        # step %d: %s' % (j, op))
+            lines += ['try:', '    ' + srcs[len(ops) - 1], 'except Exception as e:',
                       '    print("REPRODUCED: %s raised %%r" %% (e,)); sys.exit(1)' % ops[-1], "print('NOT-REPRODUCED')"]
             return '\n'.join(lines) + '\n'
         for j, op in enumerate(ops):
-            lines.append(op_source(op, j) + '        # step %d: %s' % (j, op))
+            lines.append(srcs[j] + '        # step %d: %s' % (j, op))
         expr, want = check
         lines += ['got = %s' % expr, 'want = %r   # ownership model of the statement' % (want,),
                   'if got != want:',
@@ -674,7 +1053,20 @@ def replay_script(layer, cfg, ops, clause, witness):
 # ---------------------------------------------------------------------------------------------
 # tasks
 # ---------------------------------------------------------------------------------------------
-LAYERS = (('V', V_CONFIGS), ('R', R_CONFIGS), ('M', M_CONFIGS))
+LAYERS = (('V', V_CONFIGS), ('R', R_CONFIGS), ('M', M_CONFIGS), ('D', D_CONFIGS))
+
+
+def alphabet_of(layer, cfg):
+    return d_alphabet(cfg) if layer == 'D' else v_alphabet(cfg) if layer in 'VR' else m_alphabet(cfg)
+
+
+def d_plan(tier):
+    """-> (exhaustive length, guided lengths [(length, keep one in n)], [(sampled length, count)])"""
+    if tier == 'thorough':
+        return 3, [(3, 1), (4, 1), (5, 8)], [(4, 6000), (5, 6000)]
+    if tier == 'smoke':
+        return 1, [(3, 1), (4, 4)], [(3, 100)]
+    return 1, [(3, 1), (4, 3), (5, 300)], [(2, 300), (3, 150), (4, 150), (5, 100)]
 
 
 def _has_ref_ctor(ops):
@@ -683,6 +1075,8 @@ def _has_ref_ctor(ops):
 
 def plan(tier, layer, cfg):
     """-> (length of the exhaustive enumeration, [(sampled length, number of histories), ...])"""
+    if layer == 'D':
+        return d_plan(tier)[0], d_plan(tier)[2]
     inherit = cfg['sub'] == 'inherit'
     if layer == 'R':        # (only the histories containing a reference-keyword constructor are run)
         main = cfg['nov'] == 'raise'     # the other kinds take the same branch of _setup_params after _resolve_ref
@@ -708,7 +1102,7 @@ def plan(tier, layer, cfg):
 
 def plan_text(tier):
     out = []
-    for layer, cfgs in LAYERS:
+    for layer, cfgs in LAYERS[:3]:
         kinds = sorted({(c['sub'] + (', reference %s' % ('raises Skip' if c['nov'] == 'raise' else 'returns Skip/Undefined or is a pending async generator')
                                      if layer == 'R' else ''), c['pi'])
                         + (lambda p: (p[0], tuple(p[1])))(plan(tier, layer, c)) for c in cfgs})
@@ -716,13 +1110,22 @@ def plan_text(tier):
             out.append('layer %s (B %s, per_instance=%s): all histories of length %d%s (shorter ones are their prefixes)%s' % (
                 layer, sub, pi, exh, ' containing a reference-keyword constructor' if layer == 'R' else '',
                 ''.join(' + %d seeded of length %d' % (n, L) for L, n in smp)))
-    return '; '.join(out) + ' -- per configuration'
+    exh, guided, smp = d_plan(tier)
+    out.append('layer D (chain of %d classes): all histories of length %d + the guided family [build the cache of a '
+               'class >= 2 levels down; add_parameter / class-level set anywhere; create; class-level set anywhere; '
+               'anything] cut at length %s%s' % (
+                   DEPTH, exh, ', '.join('%d (%s)' % (L, 'all' if n == 1 else 'one in %d, chosen by the seed' % n)
+                                         for L, n in guided),
+                   ''.join(' + %d seeded of length %d' % (n, L) for L, n in smp)))
+    return '; '.join(out) + ' -- per configuration; layer E: the full product (%d cases)' % len(list(e_cases()))
 
 
 def _work(task):
     layer, cfg, mode, arg, seed = task
     _P()
-    alphabet = v_alphabet(cfg) if layer in 'VR' else m_alphabet(cfg)
+    if layer == 'E':
+        return _work_e(task)
+    alphabet = alphabet_of(layer, cfg)
     hits = [0, 0]
     n = 0
     fails = []
@@ -736,6 +1139,9 @@ def _work(task):
         try:
             if layer in 'VR':
                 rs = v_run_all(cfg, ops, hits)
+            elif layer == 'D':
+                r = d_run(cfg, ops, hits)
+                rs = [r] if r is not None else []
             else:
                 r = m_run(cfg, ops, hits)
                 rs = [r] if r is not None else []
@@ -754,6 +1160,14 @@ def _work(task):
             if layer == 'R' and not _has_ref_ctor(ops):
                 continue
             one(ops)
+    elif mode == 'gui':
+        length, keep, part, nparts = arg
+        for idx, ops in enumerate(d_guided(cfg, length)):
+            if idx % nparts != part:
+                continue
+            if keep > 1 and zlib.crc32(('%d|%s' % (seed, ';'.join(ops))).encode()) % keep:
+                continue
+            one(ops)
     else:
         import random
         length, count, part = arg
@@ -769,12 +1183,34 @@ def _work(task):
     return layer, mode, n, hits, fails, failcount, samples
 
 
+def _work_e(task):
+    _, cases, _mode, _arg, _seed = task
+    fails, failcount = [], {}
+    n = nchanged = 0
+    for case in cases:
+        n += 1
+        r, changed = e_run(case)
+        nchanged += bool(changed)
+        if r is not None:
+            failcount[r[0]] = failcount.get(r[0], 0) + 1
+            fails.append((r[0], case, r[1]))
+    return 'E', 'prod', n, [n, nchanged], fails, failcount, []
+
+
 def make_tasks(tier, seed):
     tasks = []
+    ecases = list(e_cases())
+    for part in range(8):
+        tasks.append(('E', ecases[part::8], 'prod', None, seed))
     for layer, cfgs in LAYERS:
         for cfg in cfgs:
             exh, sampled = plan(tier, layer, cfg)
-            alphabet = v_alphabet(cfg) if layer in 'VR' else m_alphabet(cfg)
+            alphabet = alphabet_of(layer, cfg)
+            if layer == 'D':
+                for L, keep in d_plan(tier)[1]:
+                    nparts = 1 if L == 3 else 4 if L == 4 else 16
+                    for part in range(nparts):
+                        tasks.append((layer, cfg, 'gui', (L, keep, part, nparts), seed))
             for first in [o for o in alphabet if o[0] != 'I']:   # a history cannot start on an instance
                 tasks.append((layer, cfg, 'exh', (exh, first), seed))
             for L, count in sampled:
@@ -783,6 +1219,8 @@ def make_tasks(tier, seed):
 
 
 def witness_class(clause, layer, ops):
+    if layer == 'D':
+        return (layer,) + tuple(o[:-1] if o[0] == 'I' else o for o in ops)
     kinds = tuple(o.rstrip('0123456789') if layer in 'VR' else (o if o in ('NA', 'NB') else o[:-1]) for o in ops)
     return (layer,) + kinds
 
@@ -802,7 +1240,15 @@ def _run(tier, seed):
              '{create instance, read obj.param[..], instance value set, append to / assign objects, assign '
              'bounds+constant, watch bounds -- on an instance; append to / assign objects, assign bounds, value '
              'set, watch bounds -- on class A / B}.  Checked after EVERY step against the ownership model / frame rule of the '
-             'statement.  Distinct = distinct (layer, configuration, history); histories using an instance '
+             'statement.  Layer D (chain K0 <- K1 <- K2 <- K3, parameter p on K0, instantiate x constant): {create '
+             'instance of class k, create with keyword = the very class default object, class-level set on class k, '
+             'in-place mutation through class k, read the namespace of class k (builds its cache), '
+             'add_parameter of a new name q / of p on class k, instance mutation / read / set / set to the very '
+             'object that is the class default}, same ownership model per parameter name (q claimed for instances '
+             'created after it was added).  Layer E (product): parameter kind x how an instance assigns the object '
+             'that is / equals the class default x class of the instance x read of obj.param x later change of '
+             'the class default: the instance keeps what it assigned, a control instance follows its class.  '
+             'Distinct = distinct (layer, configuration, history); histories using an instance '
              'before creating it are not generated.' % MAXI,
         bound='%s: %s' % (tier, plan_text(tier)))
     B.exhaustive = all(not plan(tier, l, c)[1] for l, cs in LAYERS for c in cs)
@@ -812,10 +1258,18 @@ def _run(tier, seed):
         results = pool.map(_work, tasks, chunksize=1)
     total = 0
     fails, failcount = [], {}
+    efails = []
     for (layer, cfg, mode, arg, _), (l2, m2, n, hits, fl, fc, samples) in zip(tasks, results):
         total += n
-        B.checked('C12/%s/%s' % (layer, 'value==cell-content' if layer in 'VR' else 'frame:others-unchanged'), hits[0])
-        B.checked('C12/%s/%s' % (layer, 'identity<=>same-cell' if layer in 'VR' else 'value-rules+effect+sharing'), hits[1])
+        if layer == 'E':
+            B.checked('C12/E/assigned-default:kept+control-follows-class', hits[0])
+            B.checked('C12/E/vacuity:class-default-really-changed', hits[1])
+            efails += fl
+            for c, k in fc.items():
+                failcount[c] = failcount.get(c, 0) + k
+            continue
+        B.checked('C12/%s/%s' % (layer, 'value==cell-content' if layer in 'VRD' else 'frame:others-unchanged'), hits[0])
+        B.checked('C12/%s/%s' % (layer, 'identity<=>same-cell' if layer in 'VRD' else 'value-rules+effect+sharing'), hits[1])
         for f in fl:
             fails.append((f[0], layer, cfg, f[1], f[2]))
         for c, k in fc.items():
@@ -853,6 +1307,19 @@ def _run(tier, seed):
         det = run_any(layer, cfg, mops)[2]
         B.violation(clause, w, det, replay_script(layer, cfg, mops, clause, w))
         seen[wk] = B.violations[-1]
+    # layer E: one witness per (clause, parameter kind class, route); the simplest case of each class
+    order = {n: i for i, n in enumerate(k[0] for k in E_KINDS)}
+    efails.sort(key=lambda f: (f[0], E_ROUTES.index(f[1]['route']), E_SUBS.index(f[1]['sub']), E_READS.index(f[1]['read']),
+                               E_CHANGES.index(f[1]['change']), order[f[1]['kind']]))
+    eseen = {}
+    for clause, case, detail in efails:
+        wk = (clause, case['route'].split('-')[0])
+        if wk in eseen:
+            eseen[wk]['count'] += 1
+            continue
+        w = e_text(case)
+        B.violation(clause, w, detail, e_replay(case, clause, w))
+        eseen[wk] = B.violations[-1]
     for c, k in sorted(failcount.items()):
         B.note('failing histories for %s: %d (minimised to the witnesses above)' % (c, k))
     res = B.result()
